@@ -368,3 +368,146 @@ proof fn lemma_resp_empty(d: DFA, f: ISet<u32>)
 }
 
 } // verus!
+verus! {
+
+/// every state of the built automaton can reach acceptance
+spec fn live_r(tab: Map<u32, Map<InpId, u32>>, start: u32, acc: ISet<u32>) -> bool {
+    forall|u: u32| #[trigger] rstate(tab, start, u) ==> exists|w: Seq<InpId>| tacc(tab, u, acc, w)
+}
+
+proof fn lemma_live_r(d: DFA, g: Stages)
+    requires quot_ok(d, g), live(d)
+    ensures live_r(g.tabf, g.r0, g.r2)
+{
+    assert forall|u: u32| #[trigger] rstate(g.tabf, g.r0, u) implies exists|w: Seq<InpId>| tacc(g.tabf, u, g.r2, w) by {
+        lemma_rstate_src(d, g, u);
+        let s = choose|s: u32| #[trigger] src_of(d, g, u, s);
+        reveal(live);
+        let w = choose|w: Seq<InpId>| nacc(d, s, w);
+        lemma_tacc_nacc(d, s, w);
+        lemma_sim(d, g, s, w);
+        assert(tacc(g.tabf, u, g.r2, w));
+    }
+}
+
+/// every state is reached from the start state by some word
+#[verifier::opaque]
+spec fn reach_ok(d: DFA) -> bool {
+    forall|q: u32| #[trigger] is_end(d, q) ==> exists|w: Seq<InpId>| trun(d.transitions@, d.starting_state, w) == Some(q)
+}
+
+spec fn reach_r(tab: Map<u32, Map<InpId, u32>>, start: u32) -> bool {
+    forall|u: u32| #[trigger] rstate(tab, start, u) ==> exists|w: Seq<InpId>| trun(tab, start, w) == Some(u)
+}
+
+/// a state reached in the original automaton whose representative survived is reached in the built one
+proof fn lemma_reach_one(d: DFA, g: Stages, w: Seq<InpId>, q: u32)
+    requires quot_ok(d, g), trun(d.transitions@, d.starting_state, w) == Some(q), state_of(g.t3, g.start1, g.rep[q])
+    ensures
+        is_end(d, q), inn(g, q),
+        exists|w2: Seq<InpId>| trun(g.tabf, g.r0, w2) == Some(g.f[g.rep[q]]),
+    decreases w.len()
+{
+    reveal(cong_ok);
+    reveal(t1_ok);
+    reveal(no_zero);
+    reveal(states_occur);
+    lemma_t2(d, g);
+    lemma_t3(d, g);
+    lemma_tabf(d, g);
+    let rep = g.rep;
+    if w.len() == 0 {
+        assert(q == d.starting_state);
+        assert(trun(g.tabf, g.r0, Seq::<InpId>::empty()) == Some(g.f[rep[q]]));
+    } else {
+        let w0 = w.drop_last();
+        let a = w.last();
+        assert(w =~= w0.push(a));
+        lemma_trun_snoc(d.transitions@, d.starting_state, w0, a);
+        let q0 = trun(d.transitions@, d.starting_state, w0)->0;
+        assert(cell_in(d.transitions@, q0, a) && d.transitions@[q0][a] == q);
+        assert(used(d, q0, a));
+        assert(is_end(d, q0) && is_end(d, q) && all_st(d, q0) && all_st(d, q));
+        assert(rep.contains_key(q0) && rep.contains_key(q));
+        let r0 = rep[q0];
+        let r1 = rep[q];
+        assert(rep.contains_key(r0) && rep[r0] == r0);
+        lemma_cong_used(d, rep, q0, r0, a);
+        assert(used(d, r0, a) && rep[d.transitions@[r0][a]] == r1);
+        assert(has(g.t1, r0, a, r1));
+        let m = choose|m: int| 0 <= m < g.t1.len() && #[trigger] tr_is(g.t1[m], r0, a, r1);
+        assert(g.t1[m].to == r1);
+        assert(has_in(g.t1, r1));
+        assert(inn(g, q));
+        if r1 == g.start1 {
+            assert(trun(g.tabf, g.r0, Seq::<InpId>::empty()) == Some(g.f[r1]));
+        } else {
+            // the transition into r1 survives, so r0 survives too
+            lemma_reach_inn(d, g, w0, q0);
+            assert(has(g.t2, r0, a, r1));
+            assert(g.acc2.contains(r1) || has_out(g.t2, r1)) by {
+                if has_in(g.t3, r1) {
+                    let mi = choose|mi: int| 0 <= mi < g.t3.len() && (#[trigger] g.t3[mi]).to == r1;
+                    assert(tr_is(g.t3[mi], g.t3[mi].from, g.t3[mi].input, r1));
+                    assert(has(g.t3, g.t3[mi].from, g.t3[mi].input, r1));
+                } else {
+                    let mo = choose|mo: int| 0 <= mo < g.t3.len() && (#[trigger] g.t3[mo]).from == r1;
+                    assert(tr_is(g.t3[mo], r1, g.t3[mo].input, g.t3[mo].to));
+                    assert(has(g.t3, r1, g.t3[mo].input, g.t3[mo].to));
+                    assert(has(g.t2, r1, g.t3[mo].input, g.t3[mo].to));
+                    let m2 = choose|m2: int| 0 <= m2 < g.t2.len() && #[trigger] tr_is(g.t2[m2], r1, g.t3[mo].input, g.t3[mo].to);
+                    assert(g.t2[m2].from == r1);
+                }
+            }
+            assert(has(g.t3, r0, a, r1));
+            let m3 = choose|m3: int| 0 <= m3 < g.t3.len() && #[trigger] tr_is(g.t3[m3], r0, a, r1);
+            assert(g.t3[m3].from == r0);
+            assert(has_out(g.t3, r0));
+            lemma_reach_one(d, g, w0, q0);
+            let w2 = choose|w2: Seq<InpId>| trun(g.tabf, g.r0, w2) == Some(g.f[r0]);
+            lemma_trun_snoc(g.tabf, g.r0, w2, a);
+            assert(trun(g.tabf, g.r0, w2.push(a)) == Some(g.f[r1]));
+        }
+    }
+}
+
+/// a state reached from the start state is the start state or is entered: its representative is
+/// the start representative or the target of a transition of the first list
+proof fn lemma_reach_inn(d: DFA, g: Stages, w: Seq<InpId>, q: u32)
+    requires quot_ok(d, g), trun(d.transitions@, d.starting_state, w) == Some(q)
+    ensures inn(g, q), is_end(d, q)
+{
+    reveal(cong_ok);
+    reveal(t1_ok);
+    reveal(no_zero);
+    reveal(states_occur);
+    if w.len() > 0 {
+        let w0 = w.drop_last();
+        let a = w.last();
+        assert(w =~= w0.push(a));
+        lemma_trun_snoc(d.transitions@, d.starting_state, w0, a);
+        let q0 = trun(d.transitions@, d.starting_state, w0)->0;
+        assert(used(d, q0, a) && d.transitions@[q0][a] == q);
+        assert(is_end(d, q));
+        assert(has(g.t1, q0, a, g.rep[q]));
+        let m = choose|m: int| 0 <= m < g.t1.len() && #[trigger] tr_is(g.t1[m], q0, a, g.rep[q]);
+        assert(g.t1[m].to == g.rep[q]);
+        assert(has_in(g.t1, g.rep[q]));
+    }
+}
+
+/// C03: every state of the built automaton is reached from its start state
+proof fn lemma_reach_r(d: DFA, g: Stages)
+    requires quot_ok(d, g), reach_ok(d)
+    ensures reach_r(g.tabf, g.r0)
+{
+    assert forall|u: u32| #[trigger] rstate(g.tabf, g.r0, u) implies exists|w: Seq<InpId>| trun(g.tabf, g.r0, w) == Some(u) by {
+        lemma_rstate_src(d, g, u);
+        let s = choose|s: u32| #[trigger] src_of(d, g, u, s);
+        reveal(reach_ok);
+        let w = choose|w: Seq<InpId>| trun(d.transitions@, d.starting_state, w) == Some(s);
+        lemma_reach_one(d, g, w, s);
+    }
+}
+
+} // verus!
